@@ -81,7 +81,7 @@ def mk_layer(name, bases=(), su=0, td=0, hooks='stST', tsu=0, ttd=0, instance=Fa
             except KeyError as e:
                 raise ValueError('su ' + name) from e
         if su:
-            raise ValueError('su ' + name)
+            raise ValueError('su ' + name + ': 100% of %s failed %d')      # a message that is no format string
 
     def tearDown(self=None):
         ev('td', name)
@@ -91,7 +91,7 @@ def mk_layer(name, bases=(), su=0, td=0, hooks='stST', tsu=0, ttd=0, instance=Fa
             except KeyError as e:
                 raise ValueError('td ' + name) from e
         if td == 1:
-            raise ValueError('td ' + name)
+            raise ValueError('td ' + name + ': 100% of %s failed %d')
         if td == 2:
             raise NotImplementedError
 
